@@ -65,15 +65,15 @@ def c11_digests(seed, tier, indices, nw=None):
 
 def c11_determinism(seed, tier, n):
     indices = list(range(n))
+    procs = [_fresh(['helper', 'c11-digests'], {'seed': seed, 'tier': tier, 'n': n}, hs) for hs in (0, 4242)]
     a = c11_digests(seed, tier, indices, 16)
     b = c11_digests(seed, tier, indices, 4)
-    c = c11_digests(seed, tier, indices, 1) if n <= 400 else c11_digests(seed, tier, indices[:400], 1) + a[400:]
-    procs = [_fresh(['helper', 'c11-digests'], {'seed': seed, 'tier': tier, 'n': n}, hs) for hs in (0, 4242)]
+    c = c11_digests(seed, tier, indices[:48], 1) + a[48:]
     d, e = _collect(procs, 1800)
     bad = [i for i in indices if not (a[i] == b[i] == c[i] == d[i] == e[i])]
     if bad:
         raise core.HarnessError('determinism self-test failed for C11 run indices %s (seed %d)' % (bad[:10], seed))
-    return {'seeds': n, 'executions_each': 5, 'worker_counts': [16, 4, 1], 'fresh_interpreter_hashseeds': [0, 4242], 'diverged': 0}
+    return {'seeds': n, 'executions_each': 5, 'worker_counts': [16, 4, 1], 'single_worker_prefix': 48, 'fresh_interpreter_hashseeds': [0, 4242], 'diverged': 0}
 
 
 def c11_oracle_fidelity(seed, n):
